@@ -128,6 +128,8 @@ Section Update.
                  match assoc fpath (l_loaded l0) with
                  | Some _ => Ok (l0, fnd)
                  | None =>
+                     (* an IGNOREd file is not part of the tree *)
+                     if match assoc mname dirdict with Some _ => true | None => false end then Ok (l0, fnd) else
                      match load_manifest L decompress pgp_verify w l0 fpath None false false with
                      | Ok (l1, _) => Ok (l1, fnd ++ [fpath])
                      | Err XSyntax => Ok (l0, fnd)
